@@ -65,3 +65,16 @@ MANIFEST_ENTRY = dict(
     note='Trusted: intrinsic semantics table (guarded natively on the AVX2 hardware), 32x32 product abstracted as an uninterpreted function in the recombination units, alignment not modelled, CBMC/cadical.')
 NATIVE_FLAGS = ['-mavx2']
 NATIVE_SOURCES = ['props/C02/wrappers.cpp']
+
+LEMMAS = ['schoolbook', 'schoolbook_sq', 'reduce_congruence']
+def extra_checks(rn, tier, ginfos):
+    from vf import lean
+    import os, json
+    r = lean.check_lemmas(LEMMAS)
+    if r.get('lean_failed'):
+        path = os.path.join(os.environ.get('VF_REPLAY_DIR', os.path.join(os.path.dirname(os.path.dirname(os.path.dirname(os.path.abspath(__file__)))), 'replay', 'out')), PROPERTY)
+        os.makedirs(path, exist_ok=True)
+        f = os.path.join(path, 'lean-lemmas.json')
+        json.dump(dict(property=PROPERTY, obligation='Lean lemmas ' + ', '.join(LEMMAS), verifier_output=r.get('lean_output', '')), open(f, 'w'), indent=1)
+        r['violations'] = ['VIOLATION property=%s replay=%s [Lean lemma no longer accepted] no-failing-input-found' % (PROPERTY, f)]
+    return r
